@@ -157,7 +157,7 @@ Proof. apply (esc_lower_nopct_n (length q)). lia. Qed.
 Theorem iri_dom_u_of_x a : iri_dom_x a = true -> iri_dom_u a = true.
 Proof.
   unfold iri_dom_x, iri_dom_gen, iri_dom_u, iri_dom_u_with. destruct (url_classify_x a) as [u| |] eqn:E; try discriminate. intros Q.
-  destruct (classify_x_ascii a u E) as [Aa [Hq _]]. rewrite (utf8_valid_ascii a Aa), (classify_u_of_x a u E). cbn [andb].
+  destruct (classify_x_ascii a u E) as [Aa [Hq _]]. rewrite (classify_u_of_x a u E).
   unfold q_lower_class.
   rewrite (forallb_weaken is_query_char is_ascii _ (fun b Hb => proj2 (proj2 (proj2 (query_char_facts b Hb)))) Hq).
   rewrite esc_lower_nopct; [exact Q|].
@@ -240,8 +240,8 @@ Qed.
 
 (* ================================================================ the two models of IRI.Equals agree on iri_dom_x *)
 Lemma eqb_fold_canon x y : forallb is_asciib x = true -> forallb is_asciib y = true ->
-  bytes_eqb (lower x) (lower y) = nlist_eqb (ucanon x) (ucanon y).
-Proof. intros Ax Ay. symmetry. apply (ufold_eqb_ascii x y Ax Ay). Qed.
+  bytes_eqb (lower x) (lower y) = nlist_eqb (scanon x) (scanon y).
+Proof. intros Ax Ay. symmetry. apply (sfold_eqb_ascii x y Ax Ay). Qed.
 
 Theorem iri_equ_of_x a b cs : iri_dom_x a = true -> iri_dom_x b = true -> iri_equ a b cs = iri_eqx a b cs.
 Proof.
